@@ -111,6 +111,9 @@ func Structure(minLen, maxLen int, variants []int, emit func(Case)) {
 					if v == 1 && n == 1 {
 						continue // a single operation has a single author
 					}
+					if !keepChunking(v, cuts, n) {
+						continue
+					}
 					emit(Case{Variant: v, Cuts: cuts, Steps: append([]Step(nil), seq...)})
 				}
 			}
